@@ -38,6 +38,7 @@ fn job(word: &[char], form: &str, dialect: Dialect, tpl: usize, set: &HashSet<Ve
     let meta = dict.get_word_metadata(word);
     let lower: Vec<char> = shown.iter().flat_map(|c| c.to_lowercase()).collect();
     let mut e = json!({"ev": "Spell", "word": ws, "form": form, "tpl": tpl, "active": dname(Some(dialect)),
+        "before_full_stop": text.chars().nth(end) == Some('.'),
         "entry_dialect": dname(meta.and_then(|m| m.dialect)), "listed_exact": set.contains(&shown),
         "lower_listed_exact": set.contains(&lower), "entry_is_lower": word.iter().all(|c| !c.is_uppercase()),
         "known_any_case": dict.contains_word(&shown)});
